@@ -151,3 +151,40 @@ mod verif_kani_prefilter_findin {
         kani::cover!(want.is_some() && h[want.unwrap()] == b3 && b1 != b3 && b2 != b3);
     }
 }
+
+// ---- builders -> prefilter (appended to the same file as the find_in harnesses) ----
+#[cfg(kani)]
+mod verif_kani_prefilter_build {
+    use super::*;
+
+    /// C05/C02/C11: whatever `StartBytesBuilder::build` decides (a prefilter or none), a prefilter
+    /// it returns never says `None` on a haystack that starts with the first byte of an added
+    /// pattern (or, under ASCII case folding, with its other-case twin).
+    #[kani::proof]
+    #[kani::unwind(258)]
+    fn start_bytes_build_never_hides_a_first_byte() {
+        let ci: bool = kani::any();
+        let mut b = StartBytesBuilder::new().ascii_case_insensitive(ci);
+        let p1: [u8; 1] = kani::any();
+        let p2: [u8; 2] = kani::any();
+        b.add(&p1);
+        b.add(&p2);
+        if let Some(pre) = b.build() {
+            let pick: bool = kani::any();
+            let twin: bool = kani::any();
+            let first = if pick { p1[0] } else { p2[0] };
+            let byte = if twin && ci { opposite_ascii_case(first) } else { first };
+            let hay = [b'~', byte];
+            kani::assume(first != b'~' && opposite_ascii_case(first) != b'~');
+            let other = if pick { p2[0] } else { p1[0] };
+            kani::assume(other != b'~' && opposite_ascii_case(other) != b'~');
+            match pre.find_in(&hay, Span { start: 0, end: 2 }) {
+                Candidate::None => assert!(false),
+                Candidate::PossibleStartOfMatch(i) => assert!(i <= 1),
+                Candidate::Match(_) => assert!(false),
+            }
+        }
+        kani::cover!(ci && p1[0] == b'q');
+        kani::cover!(p1[0] >= 0x80);
+    }
+}
